@@ -36,6 +36,8 @@ CONSTANTS
     Policy,             \* "woi" (write on insertion) | "woe" (write on eviction)
     FlushOnClose,       \* BOOLEAN
     TombLog,            \* BOOLEAN: tombstone log enabled
+    Writer,             \* BOOLEAN: disk-only inserts are made through HybridCache::storage_writer, which consults the
+                        \* admission filter itself before the insert (the enqueue then consults it a second time)
     Reject,             \* set of hashes the admission filter rejects (Store::enqueue then deletes the key from the
                         \* disk tier instead, so that no older copy of it stays readable)
     BufCap              \* entries the flusher's buffer holds (io buffer size / entry size); a submission that does
@@ -207,8 +209,9 @@ InsertGen(k, nt, hold) ==
     /\ LET T == Begin(S)
            loc == KeyLoc[k]
            v == T.nv + 1
-           T1 == [T EXCEPT !.nv = v, !.truth[k] = v, !.loc[k] = loc, !.vkey = Append(@, k),
+           T0 == [T EXCEPT !.nv = v, !.truth[k] = v, !.loc[k] = loc, !.vkey = Append(@, k),
                            !.touched = @ \cup {k}, !.late = @ \ {k}, !.revived = @ \ {k}]
+           T1 == IF Writer /\ loc = "ondisk" THEN [T0 EXCEPT !.enq = Append(@, Hash[k]), !.enqv = Append(@, v)] ELSE T0
            T2 == IF loc = "ondisk"
                  THEN \* phantom: the old memory copy leaves (replace), the new record is never resident.
                       \* woi enqueues it at insert.  woe: it goes down the pipe when its last handle is
